@@ -124,10 +124,10 @@ Library == <<
   "true &", "wait",
   "getopts abc o -ab -c",
   "set -- x y", "set -- z",
-  "echo M1", "IFS=:" >>
+  "echo M1", "IFS=:", "shift" >>
 AllLibIds  == 1..Len(Library)
 \* one statement per component of the runner state (used for the histories of length 3)
-DeepLibIds == {1, 4, 6, 9, 10, 13, 14, 16, 17, 19, 21, 23, 25, 27, 28, 30, 32, 33, 34, 36, 38, 39, 41, 42}
+DeepLibIds == {1, 4, 6, 9, 10, 13, 14, 16, 17, 19, 21, 23, 25, 27, 28, 30, 32, 33, 34, 36, 38, 39, 41, 42, 46}
 LibSet == { Library[i] : i \in LibIds }
 
 (* ---- the probe: prints every component of the state; every line succeeds or sits in an
@@ -218,6 +218,7 @@ Effect(s, a) ==
     [] a = "set -- z"     -> Ok([s EXCEPT !.params = <<"z">>])
     [] a = "echo M1"      -> Ok(Emit(s, Lit("M1")))
     [] a = "IFS=:"        -> Ok([s EXCEPT !.ifs = ":"])
+    [] a = "shift"        -> IF s.params = <<>> THEN Fail(s, "1") ELSE Ok([s EXCEPT !.params = Tail(@)])
     \* ---- probe lines (always status 0)
     [] a = "P01"    -> Ok(Emit(s, Item("q", <<s.last>>)))
     [] a = "P02"    -> Ok(Emit(s, Item("vals", <<s.vars["v"].val, s.vars["w"].val, s.vars["E"].val, s.ifs>>
